@@ -103,9 +103,9 @@ void *qswsrqueue_dequeue_blocking(qswsrqueue_t *q)
     uint32_t cur_head = q->head;
     uint32_t next_head = (cur_head + 1) % q->size;
     do {
-        while (next_head == q->tail) qthread_yield();
+        while (cur_head == q->tail) qthread_yield();
         COMPILER_FENCE;
-        if (next_head != q->tail) {
+        if (cur_head != q->tail) {
             item = q->elements[cur_head];
             COMPILER_FENCE;
             q->head = next_head;
